@@ -1194,6 +1194,9 @@ def body(run: Run) -> int:
         'the malformed/ill-typed input stream (counts under explore:* in the histogram); proved are parser reuse, '
         'lexer totality and the closure of the error taxonomy',
         'class-level state (symbol_table, tokenizer) is shared by all instances and not part of the reuse statement']
+    run.stats.extra['partial'] = ('part (c) "no other exception type escapes from ANY parse/evaluate, no hang" is NOT '
+                                  'proved: histogram keys explore:* are an exploration (failing-input search), '
+                                  'the theorems cover parser reuse, lexer totality/termination and the error taxonomy')
     run.prove(['EPV.Props.C03', 'EPV.Props.C03Tables'], ['EPV.Spec.EscapeTriggers'])
     for code in info.get('codes_not_closed', []):
         run.disagree(Disagreement({'kind': 'error-code', 'code': code}, 'class-not-ElementPathError', None,
